@@ -160,6 +160,9 @@ let dispatch (cmd : string) (args : sx list) : sx =
                 e_eag = list_ cand_ eag; e_laz = list_ cand_ laz; e_enum = list_ cand_ enum } in
       let (o, fams) = select e in
       L [w_outcome o; w_list w_fam fams]
+  | "neighborhood", [vs] ->
+      let nv_ x = match lst x with [n; c; f] -> ((nat_ n, z_ c), bool_ f) | _ -> failwith "nvar" in
+      w_list (w_list w_z) (neighborhood (list_ nv_ vs))
   | "persist_run", [h; ops] -> w_list w_n (prun_ids (list_ n_ h) (list_ (pair_ bool_ (pair_ nat_ n_)) ops))
   | "key_eq", [s1; p1; s2; p2] ->
       w_bool (ckey_eqb (cache_key (settings_ s1) (opt_ (list_ existence_) p1)) (cache_key (settings_ s2) (opt_ (list_ existence_) p2)))
